@@ -80,10 +80,12 @@ fn create(m: &[u8], t: u32, epoch: &str) -> Result<Created, String> {
   let out = star_wasm::create_share(m, t, epoch);
   let v: serde_json::Value = serde_json::from_str(&out).map_err(|e| format!("create_share output is not JSON ({e}): {out:?}"))?;
   let o = v.as_object().ok_or_else(|| format!("create_share output is not an object: {out}"))?;
-  let mut keys: Vec<&str> = o.keys().map(|k| k.as_str()).collect();
-  keys.sort();
-  if keys != ["key", "share", "tag"] {
-    return Err(format!("create_share output has keys {keys:?}, want key/share/tag"));
+  // the three members the statement names must be there; further members are not forbidden
+  let keys: Vec<&str> = o.keys().map(|k| k.as_str()).collect();
+  for want in ["key", "share", "tag"] {
+    if !keys.contains(&want) {
+      return Err(format!("create_share output has members {keys:?}, {want} is missing"));
+    }
   }
   let field = |k: &str| -> Result<(String, Vec<u8>), String> {
     let s = o[k].as_str().ok_or_else(|| format!("field {k} is not a string"))?;
